@@ -251,6 +251,9 @@ func vLemmaCommitClone(idv uint64, chunk Chunk, b0 *Buffer) {
 		vAssert("bytes-equal", vForall(0, len(b0.buffer), func(i int) bool { return nb.buffer[i] == b0.buffer[i] }))
 		vAssert("headers-equal", vForall(0, len(b0.chunks), func(i int) bool { return nb.chunks[i] == b0.chunks[i] }))
 		vAssert("fresh-storage", vSeparate(nb.buffer, b0.buffer))
+		// (the source is a pooled page that the next transaction overwrites in place: a clone queued in a channel must
+		// not share the header list either)
+		vAssert("fresh-header-storage", vDistinctBacking(nb.chunks, b0.chunks))
 	} else {
 		vAssert("empty-skipped", len(cl.Updates) == 0)
 	}
@@ -381,4 +384,122 @@ func vLemmaReaderRange(buf []byte, chunks []header, chunk Chunk, more []byte, h 
 		}
 	})
 	vAssert("entry-headers-kept", vForall(0, n0, func(i int) bool { return b.chunks[i].Start == vRangeHeaders[i].Start }))
+}
+
+// ---------------------------------------------------------------------------------------------
+// Log.Copy (C14, C08): the log is rewound to its start and copied to the destination; the result is the error of
+// the rewind if that fails (nothing is copied then), and otherwise exactly what the copy returned - a destination
+// that fails while the pending commits are copied must make Snapshot fail.
+
+var (
+	vSeeks      int
+	vSeekFailed bool
+	vSeekErr    error
+	vSeekTo     int64
+	vSeekWhence int
+	vIOCopies   int
+	vIOCopyErr  error
+	vIOCopyDst  io.Writer
+	vIOCopySrc  io.Reader
+)
+
+//@ model io.Seeker.Seek
+func vModelSeekerSeek(s io.Seeker, offset int64, whence int) (int64, error) {
+	vSeeks++
+	vSeekTo, vSeekWhence = offset, whence
+	if vNondet[bool]() {
+		vSeekFailed = true
+		return 0, vSeekErr
+	}
+	return vNondet[int64](), nil
+}
+
+//@ model io.Copy
+func vModelIOCopy(dst io.Writer, src io.Reader) (int64, error) {
+	vIOCopies++
+	vIOCopyDst, vIOCopySrc = dst, src
+	vIOCopyErr = vNondet[error]()
+	return vNondet[int64](), vIOCopyErr
+}
+
+//@ lemma props=C14,C08 mode=paths
+func vLemmaLogCopy(l *Log, dst io.Writer) {
+	vAssume(l != nil && vSeekErr != nil)
+	vSeeks, vIOCopies, vSeekFailed = 0, 0, false
+	err := l.Copy(dst)
+	if vSeekFailed {
+		vAssert("rewind-error-returned-nothing-copied", err == vSeekErr && vIOCopies == 0)
+	} else {
+		vAssert("copied-once-from-the-log-to-the-destination", vIOCopies == 1 && vIOCopyDst == dst && vIOCopySrc == l.source)
+		vAssert("copy-result-returned", err == vIOCopyErr)
+	}
+	vAssert("rewound-to-the-start", vSeeks == 0 || (vSeekTo == 0 && vSeekWhence == io.SeekStart))
+}
+
+// ---------------------------------------------------------------------------------------------
+// Reader.SwapBytes (C01, C06, C09, C19): the merge under the reader is replaced by a store of the merged value that
+// every later reader of the buffer - the indexes' pass, the change stream, a replica - decodes at THE SAME ROW.
+// Same length: rewritten in place as Put. Different length: the original becomes Skip and Put(row, value) is appended
+// to the parent buffer, in a run of the row's own block with the row's absolute offset, wherever the parent's
+// writing position has moved to meanwhile (last2, chunk2); the reader stays on its window.
+
+func vSwapSetup(buf []byte, hdrs []header, x0, x1 uint32, head, i0, i1 int, at int32, w0 []byte, m uint16, last2 int32, chunk2 Chunk) (*Buffer, *Reader, []byte) {
+	// a reader that has just decoded a variable-size operation of row `at`: header byte at head, value window [i0, i1)
+	vAssume(int(x0) <= int(x1) && int(x1) <= len(buf) && len(buf) < 1<<29 && len(hdrs) < 1<<20 && at >= 0 && last2 >= 0)
+	vAssume(0 <= head && head < i0 && i0 <= i1 && i1 <= int(x1-x0) && int(m) <= len(w0) && vSeparate(buf, w0))
+	b := vMkBuffer(buf, hdrs, last2, chunk2) // the parent's writing position is wherever later writes have left it
+	r := &Reader{buffer: b.buffer[x0:x1], headString: head, i0: i0, i1: i1, last: i1, Offset: at, x0: x0, x1: x1, parent: b}
+	return b, r, w0[:m]
+}
+
+// what SwapBytes does to the bytes that were there, and to the reader: the same-length case ...
+//
+//@ lemma props=C01,C06,C09,C19
+func vLemmaSwapBytesInPlace(buf []byte, hdrs []header, x0, x1 uint32, head, i0, i1 int, at int32, w0 []byte, m uint16, last2 int32, chunk2 Chunk) {
+	b, r, w := vSwapSetup(buf, hdrs, x0, x1, head, i0, i1, at, w0, m, last2, chunk2)
+	vAssume(len(w) == i1-i0)
+	old := append([]byte(nil), buf...)
+	oldLen := len(buf)
+	r.SwapBytes(w)
+	hb := int(x0) + head
+	vAssert("reader-stays-on-its-window", r.last == i1 && len(r.buffer) == int(x1-x0) && (x1 == x0 || &r.buffer[0] == &b.buffer[x0]))
+	vAssert("rewritten-in-place-as-put", OpType(b.buffer[hb]&0x0f) == Put && b.buffer[hb]&0xf0 == old[hb]&0xf0 && len(b.buffer) == oldLen)
+	vAssert("value-replaced", vForall(0, len(w), func(i int) bool { return b.buffer[int(x0)+i0+i] == w[i] }))
+	vAssert("other-bytes-kept", vForall(0, oldLen, func(i int) bool {
+		return i == hb || (int(x0)+i0 <= i && i < int(x0)+i1) || b.buffer[i] == old[i]
+	}))
+}
+
+// ... and the size-changing case
+//
+//@ lemma props=C01,C06,C09,C19
+func vLemmaSwapBytesSkips(buf []byte, hdrs []header, x0, x1 uint32, head, i0, i1 int, at int32, w0 []byte, m uint16, last2 int32, chunk2 Chunk) {
+	b, r, w := vSwapSetup(buf, hdrs, x0, x1, head, i0, i1, at, w0, m, last2, chunk2)
+	vAssume(len(w) != i1-i0)
+	old := append([]byte(nil), buf...)
+	oldLen := len(buf)
+	r.SwapBytes(w)
+	hb := int(x0) + head
+	vAssert("reader-stays-on-its-window", r.last == i1 && len(r.buffer) == int(x1-x0) && (x1 == x0 || &r.buffer[0] == &b.buffer[x0]))
+	vAssert("original-becomes-skip", OpType(b.buffer[hb]&0x0f) == Skip && b.buffer[hb]&0xf0 == old[hb]&0xf0 && len(b.buffer) > oldLen)
+	vAssert("other-bytes-kept", vForall(0, oldLen, func(i int) bool { return i == hb || b.buffer[i] == old[i] }))
+}
+
+// what a size-changing SwapBytes appends: a store of the value at the same row, in a run of the row's block
+//
+//@ lemma props=C01,C06,C09,C19
+func vLemmaSwapBytesAppends(buf []byte, hdrs []header, x0, x1 uint32, head, i0, i1 int, at int32, w0 []byte, m uint16, last2 int32, chunk2 Chunk) {
+	b, r, w := vSwapSetup(buf, hdrs, x0, x1, head, i0, i1, at, w0, m, last2, chunk2)
+	idx := uint32(at)
+	chunk := ChunkAt(idx)
+	// the appended store is decoded here for the two shortest offset encodings (all encodings: the round-trip lemmas)
+	vAssume(len(w) != i1-i0 && idx >= uint32(last2) && idx-uint32(last2) < 128)
+	oldLen := len(buf)
+	r.SwapBytes(w)
+	r3 := &Reader{buffer: b.buffer[oldLen:], Offset: last2}
+	vAssert("put-appended", r3.Next() && r3.Type == Put && r3.last == len(r3.buffer))
+	vAssert("appended-at-the-same-row", r3.Index() == idx)
+	vAssert("appended-in-a-run-of-the-row's-block", b.chunk == chunk &&
+		(chunk2 == chunk || (len(b.chunks) == len(hdrs)+1 && b.chunks[len(hdrs)].Chunk == chunk && int(b.chunks[len(hdrs)].Start) == oldLen && b.chunks[len(hdrs)].Value == uint32(last2))))
+	vAssert("appended-value", len(r3.Bytes()) == len(w) && vForall(0, len(w), func(i int) bool { return r3.Bytes()[i] == w[i] }))
 }
